@@ -7,6 +7,7 @@ import GeonumModel.Spec.RealWitness
 import GeonumModel.Lemmas.ExactAdd
 import GeonumModel.Lemmas.SumMagFloat
 import GeonumModel.Lemmas.FloatSumDir
+import GeonumModel.Lemmas.FloatSumCart
 
 set_option linter.unusedSectionVars false
 set_option linter.unusedVariables false
@@ -182,129 +183,9 @@ theorem sum_mag_float {a b : Geonum F} (ha : a.MagDom) (hb : b.MagDom)
     (h1 : sameAngle a b = false) (h2 : oppositeAngle a b = false) :
     |val (a.add b).mag - Real.sqrt (val a.mag * val a.mag + val b.mag * val b.mag
         + 2 * val a.mag * val b.mag * val (FloatLike.cos (fsub b.angle.gradeAngle a.angle.gradeAngle)))|
-      ≤ (val a.mag + val b.mag) * (1 / 2 ^ 24 + 1 / 2 ^ 50) + 1 / 10 ^ 90 := by
-  obtain ⟨hfr, hc, haa, hbb, hs, hta, htab, hpr, hR⟩ := radicand_vals ha hb hg
-  obtain ⟨haf, hA0, hA1⟩ := ha
-  obtain ⟨hbf, hB0, hB1⟩ := hb
-  -- the magnitude is the rounded square root of the clamped radicand
-  rw [add_general_mag a b h1 h2]
-  obtain ⟨hfm, hvm⟩ := fmax_spec hfr (fin_zero (F := F))
-  rw [val_zero] at hvm
-  have hm0 : 0 ≤ val (fmax (radicand a b) zero) := by rw [hvm]; exact le_max_right _ _
-  obtain ⟨hfs, hvs⟩ := sqrt_spec hfm hm0
-  rw [hvm] at hvs
-  -- one rounding error per operation
-  have e1 := rnd_err (F := F) (val a.mag * val a.mag); rw [← haa] at e1
-  have e2 := rnd_err (F := F) (val b.mag * val b.mag); rw [← hbb] at e2
-  have e3 := rnd_err (F := F) (val (fmul a.mag a.mag) + val (fmul b.mag b.mag)); rw [← hs] at e3
-  have e4 := rnd_err (F := F) (2 * val a.mag); rw [← hta] at e4
-  have e5 := rnd_err (F := F) (val (fmul two a.mag) * val b.mag); rw [← htab] at e5
-  have e6 := rnd_err (F := F) (val (fmul (fmul two a.mag) b.mag) * val (FloatLike.cos (fsub b.angle.gradeAngle a.angle.gradeAngle)))
-  rw [← hpr] at e6
-  have e7 := rnd_err (F := F) (val (fadd (fmul a.mag a.mag) (fmul b.mag b.mag)) +
-    val (fmul (fmul (fmul two a.mag) b.mag) (FloatLike.cos (fsub b.angle.gradeAngle a.angle.gradeAngle))))
-  rw [← hR] at e7
-  have e8 := rnd_err (F := F) (Real.sqrt (max (val (radicand a b)) 0)); rw [← hvs] at e8
-  rw [abs_of_nonneg (Real.sqrt_nonneg _)] at e8
-  -- name the reals
-  generalize val (fmul a.mag a.mag) = aa at *
-  generalize val (fmul b.mag b.mag) = bb at *
-  generalize val (fadd (fmul a.mag a.mag) (fmul b.mag b.mag)) = s at *
-  generalize val (fmul two a.mag) = ta at *
-  generalize val (fmul (fmul two a.mag) b.mag) = tab at *
-  generalize val (fmul (fmul (fmul two a.mag) b.mag) (FloatLike.cos (fsub b.angle.gradeAngle a.angle.gradeAngle))) = pr at *
-  generalize val (radicand a b) = R at *
-  generalize val (FloatLike.cos (fsub b.angle.gradeAngle a.angle.gradeAngle)) = c at *
-  generalize val (sqrt (fmax (radicand a b) zero)) = m at *
-  generalize val a.mag = A at *
-  generalize val b.mag = B at *
-  clear haa hbb hs hta htab hpr hR hvs hvm hm0 hfs hfm hfr hg h1 h2 haf hbf
-  -- the constants
-  have ht300 : (1 : ℝ) / 2 ^ 1075 ≤ 1 / 10 ^ 300 := by
-    apply one_div_le_one_div_of_le (by positivity)
-    calc (10:ℝ) ^ 300 = (10 ^ 3) ^ 100 := by rw [← pow_mul]
-      _ ≤ (2 ^ 10) ^ 100 := by gcongr; norm_num
-      _ = 2 ^ 1000 := by rw [← pow_mul]
-      _ ≤ 2 ^ 1075 := pow_le_pow_right₀ (by norm_num) (by norm_num)
-  have ht0 : (0:ℝ) ≤ 1 / 2 ^ 1075 := by positivity
-  have hAA : |A * A| = A * A := abs_of_nonneg (mul_nonneg hA0 hA0)
-  have hBB : |B * B| = B * B := abs_of_nonneg (mul_nonneg hB0 hB0)
-  have h2A : |2 * A| = 2 * A := abs_of_nonneg (by linarith)
-  rw [hAA] at e1; rw [hBB] at e2; rw [h2A] at e4
-  have htB1 : (1:ℝ) / 10 ^ 300 * B ≤ 1 / 10 ^ 200 := by
-    calc (1:ℝ) / 10 ^ 300 * B ≤ (1 / 10 ^ 300) * 10 ^ 100 := mul_le_mul_of_nonneg_left hB1 (by positivity)
-      _ = 1 / 10 ^ 200 := by rw [show (300:ℕ) = 200 + 100 by norm_num, pow_add]; field_simp
-  have htt : (1:ℝ) / 10 ^ 300 ≤ 1 / 10 ^ 200 :=
-    one_div_le_one_div_of_le (by positivity) (pow_le_pow_right₀ (by norm_num) (by norm_num))
-  have h200 : (30:ℝ) * (1 / 10 ^ 200) ≤ 1 / 10 ^ 190 := by
-    rw [show (200:ℕ) = 190 + 10 by norm_num, pow_add]
-    have : (0:ℝ) < 10 ^ 190 := by positivity
-    rw [mul_one_div, div_le_div_iff₀ (by positivity) this]
-    nlinarith [show (30:ℝ) ≤ 10 ^ 10 by norm_num]
-  have hsq190 : Real.sqrt (1 / 10 ^ 190) = 1 / 10 ^ 95 := by
-    have : (1:ℝ) / 10 ^ 190 = (1 / 10 ^ 95) ^ 2 := by rw [div_pow, one_pow, ← pow_mul]
-    rw [this, Real.sqrt_sq (by positivity)]
-  have h95 : (3:ℝ) * (1 / 10 ^ 95) ≤ 1 / 10 ^ 90 := by
-    rw [show (95:ℕ) = 90 + 5 by norm_num, pow_add]
-    have : (0:ℝ) < 10 ^ 90 := by positivity
-    rw [mul_one_div, div_le_div_iff₀ (by positivity) this]
-    nlinarith [show (3:ℝ) ≤ 10 ^ 5 by norm_num]
-  have h300_95 : (1:ℝ) / 10 ^ 300 ≤ 1 / 10 ^ 95 :=
-    one_div_le_one_div_of_le (by positivity) (pow_le_pow_right₀ (by norm_num) (by norm_num))
-  have hB95 : (0:ℝ) ≤ 1 / 10 ^ 95 := by positivity
-  generalize (1:ℝ) / 2 ^ 1075 = t at *
-  have htB : t * B ≤ 1 / 10 ^ 200 := le_trans (mul_le_mul_of_nonneg_right ht300 hB0) htB1
-  have htw : t ≤ 1 / 10 ^ 200 := le_trans ht300 htt
-  have ht95 : t ≤ 1 / 10 ^ 95 := le_trans ht300 h300_95
-  clear hA1 hB1 htB1 htt ht300 h300_95
-  generalize (1:ℝ) / 10 ^ 300 = w300 at *
-  generalize (1:ℝ) / 10 ^ 200 = w at *
-  generalize (1:ℝ) / 10 ^ 190 = W at *
-  generalize (1:ℝ) / 10 ^ 95 = u at *
-  generalize (1:ℝ) / 10 ^ 90 = U at *
-  -- ε
-  obtain ⟨e, he⟩ : ∃ e : ℝ, e = 1 / 2 ^ 53 := ⟨_, rfl⟩
-  have he0 : 0 ≤ e := by rw [he]; positivity
-  have he1 : e ≤ 1 / 4 := by rw [he]; norm_num
-  have hdiv : ∀ x : ℝ, x / 2 ^ 53 = x * e := by intro x; rw [he]; ring
-  simp only [hdiv] at e1 e2 e3 e4 e5 e6 e7 e8
-  have ds := radicand_step1 he0 he1 ht0 e1 e2 e3
-  have dp := radicand_step2 hA0 hB0 hc he0 he1 ht0 e4 e5 e6
-  have dR := radicand_step3 hA0 hB0 hc he0 he1 ht0 ds dp e7
-  -- exact radicand: between (A−B)² and (A+B)²
-  have hP : 0 ≤ A + B := by linarith
-  have hAB : 0 ≤ A * B := mul_nonneg hA0 hB0
-  have h2abc : |2 * A * B * c| ≤ 2 * (A * B) := by
-    rw [abs_mul, abs_of_nonneg (by linarith : (0:ℝ) ≤ 2 * A * B)]
-    calc 2 * A * B * |c| ≤ 2 * A * B * 1 := mul_le_mul_of_nonneg_left hc (by linarith)
-      _ = 2 * (A * B) := by ring
-  rw [abs_le] at h2abc
-  have hE0 : 0 ≤ A * A + B * B + 2 * A * B * c := by nlinarith [sq_nonneg (A - B), h2abc.1]
-  have hEP : A * A + B * B + 2 * A * B * c ≤ (A + B) ^ 2 := by nlinarith [h2abc.2]
-  have hτ0 : 0 ≤ 10 * (t * B) + 20 * t := by have := mul_nonneg ht0 hB0; linarith
-  have hRE : |R - (A * A + B * B + 2 * A * B * c)| ≤ (A + B) ^ 2 / 2 ^ 48 + (10 * (t * B) + 20 * t) := by
-    have : 10 * ((A + B) ^ 2 * e) ≤ (A + B) ^ 2 / 2 ^ 48 := by
-      rw [he]
-      have h0 : 0 ≤ (A + B) ^ 2 := by positivity
-      have : 10 * ((A + B) ^ 2 * (1 / 2 ^ 53)) = (A + B) ^ 2 * (10 / 2 ^ 53) := by ring
-      rw [this, div_eq_mul_one_div ((A + B) ^ 2) (2 ^ 48)]
-      exact mul_le_mul_of_nonneg_left (by norm_num) h0
-    linarith
-  have hfinal := mag_from_radicand hP hE0 hEP he0 hτ0 hRE e8
-  -- collect the constants
-  have hτW : 10 * (t * B) + 20 * t ≤ W := by linarith
-  have hsτ : Real.sqrt (10 * (t * B) + 20 * t) ≤ u := by rw [← hsq190]; exact Real.sqrt_le_sqrt hτW
-  have hsτ0 := Real.sqrt_nonneg (10 * (t * B) + 20 * t)
-  have hPe : (A + B + (A + B) / 2 ^ 24 + Real.sqrt (10 * (t * B) + 20 * t)) * e ≤ (A + B) * (1 / 2 ^ 50) + u := by
-    have h1 : (A + B + (A + B) / 2 ^ 24 + Real.sqrt (10 * (t * B) + 20 * t)) * e
-        = (A + B) * ((1 + 1 / 2 ^ 24) * e) + Real.sqrt (10 * (t * B) + 20 * t) * e := by ring
-    have h2 : (1 + 1 / 2 ^ 24) * e ≤ 1 / 2 ^ 50 := by rw [he]; norm_num
-    have h3 : Real.sqrt (10 * (t * B) + 20 * t) * e ≤ u := le_trans (mul_le_of_le_one_right hsτ0 (by linarith)) hsτ
-    have h4 := mul_le_mul_of_nonneg_left h2 hP
-    linarith
-  have e24 : (A + B) * (1 / 2 ^ 24 + 1 / 2 ^ 50) = (A + B) / 2 ^ 24 + (A + B) * (1 / 2 ^ 50) := by ring
-  rw [e24]
-  linarith
+      ≤ (val a.mag + val b.mag) * (1 / 2 ^ 24 + 1 / 2 ^ 50) + 1 / 10 ^ 90 :=
+  Geonum.sum_mag_float ha hb hg h1 h2
+
 /-- (B) **direction of the sum in rounded arithmetic, general branch**: for canonical operands with in-domain magnitudes and combined
     blade count `cb ≤ 2^39`, the float total of `a + b` is the libm `atan2` of the rounded component sums
     `(Σ |g|·sin, Σ |g|·cos)` plus a whole number of turns, to within `1e-10 + (40·cb + 140)·2⁻⁵³` — through the rounded blade
@@ -316,6 +197,24 @@ theorem sum_direction_float {a b : Geonum F} (ha : a.angle.Inv) (hb : b.angle.In
     ∃ n : ℕ, |Angle.Tq (a.add b).angle - (val (FloatLike.atan2 (oppSum a b) (adjSum a b)) + (n : ℝ) * (4 * val (qp : F)))|
       < val (e10 : F) + (40 * ((a.angle.blade + b.angle.blade : ℕ) : ℝ) + 140) * (1 / 2 ^ 53) + 1 / 10 ^ 298 :=
   Geonum.add_general_direction_float ha hb hma hmb hcb h1 h2
+
+/-- (B) **the Cartesian-sum clause in rounded arithmetic, general branch**: the Cartesian components of `a + b` (angles in true
+    radians) are the component-wise sums of the operands' Cartesian components to within
+    `(|a|+|b|)·(2e-7 + 1.1·(1e-10 + (40·cb + 170)·2⁻⁵³)) + 1e-28` — the `√ε`-of-scale magnitude term (attained only under
+    near-total cancellation) plus the direction error (boundary snap + blade re-encoding) times the length.  Assembled from the rounded
+    component sums, the law-of-cosines magnitude, the libm `atan2` (incl. the negative real axis, where the sign of a zero decides `±π`)
+    and the constructor's re-encoding (both signs of the adjusted angle). -/
+theorem sum_cartesian_float {a b : Geonum F} (ha : a.angle.Inv) (hb : b.angle.Inv) (hma : a.MagDom) (hmb : b.MagDom)
+    (hcb : a.angle.blade + b.angle.blade ≤ 2 ^ 39) (h1 : sameAngle a b = false) (h2 : oppositeAngle a b = false) :
+    |val (a.add b).mag * Real.cos (Angle.Tpi (a.add b).angle)
+        - (val a.mag * Real.cos (Angle.Tpi a.angle) + val b.mag * Real.cos (Angle.Tpi b.angle))|
+      ≤ (val a.mag + val b.mag) * (2 / 10 ^ 7 + 11 / 10 * (val (e10 : F)
+          + (40 * ((a.angle.blade + b.angle.blade : ℕ) : ℝ) + 170) * (1 / 2 ^ 53))) + 1 / 10 ^ 28 ∧
+    |val (a.add b).mag * Real.sin (Angle.Tpi (a.add b).angle)
+        - (val a.mag * Real.sin (Angle.Tpi a.angle) + val b.mag * Real.sin (Angle.Tpi b.angle))|
+      ≤ (val a.mag + val b.mag) * (2 / 10 ^ 7 + 11 / 10 * (val (e10 : F)
+          + (40 * ((a.angle.blade + b.angle.blade : ℕ) : ℝ) + 170) * (1 / 2 ^ 53))) + 1 / 10 ^ 28 :=
+  Geonum.sum_cartesian_float ha hb hma hmb hcb h1 h2
 
 end B
 
